@@ -223,6 +223,12 @@ def check_fake(case):
     delivered = (case.get('popen_raises') is None and
                  not case.get('no_report') and
                  (case.get('cut') is None or case['cut'] >= len(full)))
+    if obs.get('children', 0) > 1:
+        # one layer, one child: a child that ends without (complete) report may already have run every test of the layer,
+        # so starting another one runs them a second time (C03: once each) -- the parent records an error instead
+        return ('parent:layer-spawned-again:%d-children' % obs['children'],
+                'spawn_layer_in_subprocess started %d child processes for one layer (child output %r / stderr %r)'
+                % (obs['children'], fake_spec(case).get('stdout', '')[:60], fake_spec(case).get('stderr', '')[:60]))
     return judge(case, obs, wf, we, delivered)
 
 
